@@ -483,9 +483,9 @@ class CSSParser:
         value = ''
 
         if case:
-            flags = (re.I if case == 'i' else 0) | re.DOTALL
+            flags = ((re.I | re.A) if case == 'i' else 0) | re.DOTALL
         elif util.lower(attr) == 'type':
-            flags = re.I | re.DOTALL
+            flags = re.I | re.A | re.DOTALL
             is_type = True
         else:
             flags = re.DOTALL
